@@ -310,7 +310,8 @@ Record wcase : Type := mk_wcase {
   wc_intact : bool;
   wc_shared : bool;
   wc_repeat : bool;
-  wc_split : bool               (* every Done/Done split gave the whole walk's final state and emissions *)
+  wc_split : bool;              (* every Done/Done split gave the whole walk's final state and emissions *)
+  wc_accessors : bool           (* Walked.To / From / DoEmitted say what the strides say (hosts read the accessors) *)
 }.
 
 Definition limit_of (c : wcase) : nat :=
@@ -426,6 +427,7 @@ Definition c08_walk_violations (cases : list wcase) : list nat :=
   bad_indexes (fun c => let '(w, amb) := model_walk c in
                         match wc_go c with
                         | GWalk gw _ =>
+                            negb (wc_accessors c) ||
                             negb amb &&
                             negb (list_eqb (list_eqb json_eqb) (map sd_emitted (w_strides w))
                                            (map sd_emitted (w_strides gw)))
